@@ -97,7 +97,39 @@ fn dg_strategy() -> BoxedStrategy<Dg> {
 type In = (Vec<Op>, Vec<Dg>, bool);
 
 fn strategy(_t: Tier) -> BoxedStrategy<In> {
-    (vec(op_strategy(), 0..8), vec(dg_strategy(), 1..20), any::<bool>()).boxed()
+    (vec(op_strategy(), 0..8), vec(dg_strategy(), 1..20), any::<bool>())
+        .prop_map(|(ops, mut dgs, ch)| {
+            // queries for the store ask for names its history mentions (owners, also of removed records, and targets)
+            let mentioned: Vec<AName> = ops
+                .iter()
+                .filter_map(|o| match o {
+                    Op::AddAuth(r) | Op::AddCached(r) | Op::Remove(r) => Some(r),
+                    Op::Clear => None,
+                })
+                .flat_map(|r| {
+                    let mut v = vec![r.name.clone()];
+                    if let ARData::Typed { code, fields } = &r.rdata {
+                        for (n, _) in embedded_names(*code, fields) {
+                            v.push(n.clone());
+                        }
+                    }
+                    v
+                })
+                .collect();
+            if !mentioned.is_empty() {
+                let mut k = 0usize;
+                for d in dgs.iter_mut() {
+                    if let Dg::StoreQuery(qs) = d {
+                        for q in qs.iter_mut() {
+                            q.name = mentioned[k % mentioned.len()].clone();
+                            k += 1;
+                        }
+                    }
+                }
+            }
+            (ops, dgs, ch)
+        })
+        .boxed()
 }
 
 /// One datagram through the three receive loops, step for step
